@@ -22,6 +22,12 @@ preferred) followed by integer / mixed / explicit-bound indices and takes, (b) c
 name= / dtype=, chunks in every accepted form, alone and under elementwise ops, followed by every index
 kind, (c) ufuncs with out= (where=True and where=<array>) followed by slices, integer indices and takes
 that change the axis length.
+Extension stream (harness/props_ext/c08_whereout.py): a GRID where= kind (absent / full-rank dask / LOWER-rank dask on
+the trailing axes / length-1 axes / 0-d / NumPy array / Python bool) × consumer kind (.T / transpose / swapaxes /
+moveaxis, every basic-slice kind, takes, rechunk, reductions, expand_dims / squeeze / None-indexing, broadcast_to,
+concatenate / stack with a sibling, elementwise consumers, and pairs) walked completely in every run, with out= in
+{None, same dtype, wider dtype}, operands broadcasting among themselves, square and non-square shapes, ragged chunks:
+every rewrite that rebuilds an Elemwise must carry where= / out= along like the other operands, with broadcasting.
 """
 from __future__ import annotations
 
@@ -167,8 +173,17 @@ def run(ctx, replay=None):
         f"optimized under a {WATCHDOG_S}s watchdog, re-optimized (name must not change), simplify/lower idempotence, advertised shape "
         "kept, optimized compute of a fresh build (must not raise, must equal the raw form's array); directed chains: broadcasting "
         "operands under explicit-bound slices; rank-4/5 permutations under integer indices; creation functions (name= / dtype= / "
-        "chunks forms) and ufunc(out=[, where=]) under every index kind; distinct = set of rewrite rules fired"
+        "chunks forms) and ufunc(out=[, where=]) under every index kind; distinct = set of rewrite rules fired.  Plus "
+        "(props_ext/c08_whereout) the grid where= kind x consumer kind of ufunc(where=, out=) calls (lower-rank / length-1 / 0-d / "
+        "NumPy / Python masks; out= none / same / wider dtype; axis permutations, slices, takes, rechunk, reductions, expand_dims, "
+        "squeeze, broadcast_to, concatenate, stack, elementwise consumers and pairs), same statement, undefined positions "
+        "(where= without out=) excluded; distinct = (where kind, consumer kind, operand pattern, out kind, #consumers)"
     )
+    if replay is not None and replay.get("case", {}).get("whereout"):  # harness/props_ext/c08_whereout.py
+        from harness.props_ext import c08_whereout
+
+        c08_whereout.check_case(ctx, replay["case"], "raw", do_shrink=False)
+        return
     if replay is not None:
         prog = replay["case"]["program"]
         check_program(ctx, prog, None)
@@ -198,6 +213,9 @@ def run(ctx, replay=None):
         ctx.count(("directed", pat))
         check_program(ctx, g.prog, g.env[g.prog[-1]["out"]])
     directed_t6_stream(ctx)
+    from harness.props_ext import c08_whereout  # ufunc(where=, out=) x every consumer the optimizer rewrites through an Elemwise
+
+    c08_whereout.search(ctx, "raw")
     X.flush(ctx)
     # the model's own optimizer on the programs that lie inside the mini-language
     X.model_optimize_stream(ctx, mini)
